@@ -11,6 +11,7 @@ import (
 	"github.com/pierrec/lz4"
 
 	"github.com/vicanso/pike/compress"
+	"github.com/vicanso/pike/config"
 
 	"pikemc/env"
 )
@@ -97,10 +98,37 @@ func init() {
 				enc     string
 			}
 			var prev []kept // outputs of the previous input: must stay valid after later encoder calls
+			// the configured profiles' own methods (what the cache calls), one profile per level 0..12
+			var profs []config.CompressConfig
+			for lvl := 0; lvl <= 12; lvl++ {
+				profs = append(profs, config.CompressConfig{Name: fmt.Sprintf("lv%d", lvl), Levels: map[string]uint{"gzip": uint(lvl), "br": uint(lvl)}})
+			}
+			compress.Reset(profs)
 			var gen func(cur []byte)
 			gen = func(cur []byte) {
 				idx++
 				if c.Mine(idx) {
+					for lvl := 0; lvl <= 12; lvl++ {
+						svc := compress.Get(fmt.Sprintf("lv%d", lvl))
+						for _, enc := range []string{"gzip", "br"} {
+							var out []byte
+							var err error
+							if enc == "gzip" {
+								out, err = svc.Gzip(cur)
+							} else {
+								out, err = svc.Brotli(cur)
+							}
+							st.Execs++
+							kase := map[string]interface{}{"input": fmt.Sprintf("%x", cur), "profile_level": lvl, "enc": enc}
+							if err != nil {
+								c.Violation("all-strings", "encode-error-"+enc, fmt.Sprintf("profile with level %d: %v", lvl, err), nil, kase, nil)
+								continue
+							}
+							if dec, derr := refDecode(enc, out); derr != nil || !bytes.Equal(dec, cur) {
+								c.Violation("all-strings", "stream-not-restored-by-standard-decoder-"+enc, fmt.Sprintf("profile with level %d, input %x: %d bytes produced, reference decoder gives %x err %v", lvl, cur, len(out), dec, derr), nil, kase, nil)
+							}
+						}
+					}
 					for lvl := -1; lvl <= 12; lvl++ {
 						for _, enc := range []string{"gzip", "br"} {
 							var out []byte
